@@ -278,6 +278,32 @@ def run_lazy(ctx, b, w, case):
                                                                  "type": gen.typestr(case["T"]), "policy": case["policy"]})
                 return
 
+    # ---- a lazily projected field describes itself like the eager field (depth queries are answered from the declared
+    #      form without generating; reducers and sorts choose their path by them)
+    if root:
+        for k in (ops.type_keys(case["T"]) or [])[:3]:
+            try:
+                ef, lf = b.getitem_field(eager, k), b.getitem_field(top, k)
+            except AkError:
+                ctx.count("field_probe_raised_(not_compared)")
+                continue
+            le = ops.run_op(b, ef, {"op": "depths"})
+            ll = ops.run_op(b, lf, {"op": "depths"})
+            ctx.count("lazy_field_depth_probes")
+            if le.kind == "value" and (ll.kind != "value" or le.value != ll.value):
+                ctx.violation("lazy-queries-differ", {"op": {"op": "getitem_field+depths"}, "field": k, "lazy": ll.brief(),
+                                                      "eager": le.brief(), "policy": case["policy"],
+                                                      "declared": [case["declare_form"], case["declare_length"]],
+                                                      "type": gen.typestr(case["T"])})
+                return
+            try:
+                te, tl = b.typestr(ef), b.typestr(lf)
+            except AkError:
+                continue
+            if te != tl:
+                ctx.violation("lazy-type-differs", {"op": {"op": "getitem_field+type"}, "field": k, "lazy": tl, "eager": te})
+                return
+
     cur_e, cur_l = eager, top
     if case["prefix"]:
         pe = _prefix(b, cur_e, case["prefix"])
